@@ -13,7 +13,7 @@ CLAIM = {
     "text": ("Decides the structural clauses of C13: (R1) quantifier and polarity -- for each method the value returned by is_case_missing normalises (small lattice of (quantifier, predicate) with De Morgan for ~ / not) to "
              "'for all variables, for all positions: null' (isnull) resp. 'not finite' (isfinite, defined by np.isfinite itself so that nan, +inf and -inf all count as no data), the absent-coordinate path returns True, an unknown method raises; "
              "(R2) find_missing_cases enumerates product over the non-ignored dimensions in dataset order with a string ignore_dims treated as one name, zips locations with the same names, and the filter preserves order and emits each location at most once; "
-             "parse_into_cases enumerates cases x product(combos) in order, the later mapping overriding, and every requested location reaches the missing test (no short cut skips it). (R3) Runner.run_cases binds the tuple cases reported here with the caller's fn_args; (R4) the null criterion `method` is forwarded to every in-package callee that takes one. Not decided: xarray null semantics per dtype; the find -> harvest -> find loop (C05)."),
+             "parse_into_cases enumerates cases x product(combos) in order, the later mapping overriding, and every requested location reaches the missing test (no short cut skips it). (R3) Runner.run_cases binds the tuple cases reported here with the caller's fn_args; (R4) the null criterion `method` is forwarded to every in-package callee that takes one. (R5) the discovery functions and what they reach in their module read no module-level container written at run time (a memo keyed by id(ds) is reported: the same object modified in place gets the earlier answer). Not decided: xarray null semantics per dtype; the find -> harvest -> find loop (C05)."),
     "note": "Trusted base: xarray .sel raises KeyError for absent labels; isnull / np.isfinite element-wise semantics; .all() reduces over all positions and to_array().all() over variables.",
     "technique": "static analysis: abstract evaluation of the reduction chain in a (quantifier, predicate) lattice per method valuation; syntactic enumeration-order and guard-shape rules",
 }
@@ -466,7 +466,52 @@ def criterion_forwarding_rule(ctx, rid):
     return rr
 
 
+def stateless_rule(ctx, rid):
+    """The discovery functions read the dataset they are given, every time: nothing reachable from them reads a
+    module-level container that the program writes at run time.  A memo keyed by the *identity* of the dataset
+    (`id(ds)`) is reported: the same object modified in place between two queries (holes filled by assignment) gets the
+    earlier answer.  A memo keyed otherwise is exit 2."""
+    from .plots import _runtime_state, _cmap_state_findings
+    prog = ctx.prog
+    rr = ctx.rule(rid, "missing-data discovery keeps no state between calls (reads no module-level container written at run time)", floor=3)
+    cache = {}
+
+    def state_of(mod):
+        if mod.name not in cache:
+            cache[mod.name] = _runtime_state(mod)
+        return cache[mod.name]
+    probe = ast.parse("_M = {}\ndef f(ds):\n    return _M.setdefault(id(ds), ds.isnull())\n")
+    pm = type("M", (), {"tree": probe, "name": "<probe>"})()
+    need("_M" in _runtime_state(pm), "internal: the run-time state detector no longer recognises its own example")
+    for nm in ("is_case_missing", "find_missing_cases", "parse_into_cases"):
+        entry = prog.need_func(CASE + "." + nm)
+        seen, reads = _cmap_state_findings(lambda m: m.funcs, entry, state_of)
+        for q in seen:
+            f_ = prog.func(q)
+            if f_ is not None:
+                ctx.touch(f_)
+        done = set()
+        for f, n, cont, key in reads:
+            if (f.qualname, cont) in done:
+                continue
+            done.add((f.qualname, cont))
+            k_ = key
+            if isinstance(k_, ast.Name):
+                d_ = single_def(f, k_.id)
+                if d_ is not None:
+                    k_ = d_[1]
+            if isinstance(k_, ast.Call) and norm(k_.func) == "id" and len(k_.args) == 1 and isinstance(k_.args[0], ast.Name) and k_.args[0].id in f.params:
+                rr.bad(ctx.finding(rid, f, n, "%s (reached from %s) keeps results across calls in `%s` keyed by `%s`, the identity of the dataset and not its content: after the same object is modified in place (holes filled by assignment, entries set to NaN) the earlier answer is returned, so locations that now hold data are still reported missing and newly emptied ones are not" % (
+                    f.name, nm, cont, norm(k_)), construct="memo-by-identity " + f.name), "%s stateless" % nm)
+            else:
+                raise AnalysisError("idiom changed: %s (reached from %s) reads the run-time-written module container `%s` (key `%s`); whether equal keys mean equal data is not analysed" % (f.name, nm, cont, norm(k_) if k_ is not None else "?"))
+        if not reads:
+            rr.ok("%s and the %d function(s) it reaches read no module-level container written at run time" % (nm, len(seen) - 1))
+    return rr
+
+
 def run(ctx):
+    stateless_rule(ctx, "C13.R5")
     quantifier_rule(ctx, "C13.R1")
     criterion_forwarding_rule(ctx, "C13.R4")
     from . import sweep as _sw
